@@ -146,18 +146,19 @@ def c03_lifecycle(tr, out, snaps_by_market, exec_class="Simulated"):
     for mid, snaps in snaps_by_market.items():
         for i, k, af in removal_updates(snaps):
             removed_at.setdefault((mid, k), snaps[i]["pt"])
+    smk = "sm" if exec_class in ("Simulated", "Paper") else "o_sm"  # live orders report the exchange's matched size
     for o, ss in tr.samples.items():
         frozen = None
         for s in ss:
-            if frozen is not None and abs(s["sm"] - frozen) > 1e-9 and o in sent:
+            if frozen is not None and abs((s[smk] or 0.0) - frozen) > 1e-9 and o in sent:
                 rk = (s["market"], tuple(s["sel"]))
                 if rk in removed_at:
-                    frozen = s["sm"]
+                    frozen = s[smk] or 0.0
                     continue
-                out.v("matched-changed-after-complete", {"exec": exec_class}, order=o, was=frozen, now=s["sm"], tick=s["tick"])
-                frozen = s["sm"]
+                out.v("matched-changed-after-complete", {"exec": exec_class}, order=o, was=frozen, now=s[smk], tick=s["tick"])
+                frozen = s[smk] or 0.0
             if s["complete"] and s["status"] != "VIOLATION" and frozen is None:
-                frozen = s["sm"]
+                frozen = s[smk] or 0.0
             out.rule("frozen-matched")
     # at most one operation per order is outstanding: an accepted request is executed once
     nreq = collections.Counter((r["o"], r["kind"]) for r in tr.requests if r.get("result") is True and (r["kind"] != "PLACE" or r["execute"]))
